@@ -83,7 +83,9 @@ func genAOF(r *Rng, tier string, idx int, rewrite bool) *Plan {
 					p.Ops = append(p.Ops, Op{Kind: "rewrite"})
 				}
 			case !rewrite && r.Chance(0.1):
-				p.Ops = append(p.Ops, Op{Kind: "crash", N: int64(r.Intn(8)), S: Pick(r, []string{"kill", "power"})})
+				// oskill: the process dies before the N-th mutating file-system operation of the command, whatever code
+				// issues it (crash points of the instrumented package os, not of the hooks in the repository)
+				p.Ops = append(p.Ops, Op{Kind: "crash", N: int64(r.Intn(8)), S: Pick(r, []string{"kill", "power", "kill", "power", "oskill"})})
 				p.Ops = append(p.Ops, Op{C: r.Intn(2), Args: g.Cmd(r)})
 			case !rewrite && !pairs && r.Chance(0.07):
 				// an I/O error (EIO, ENOSPC, short write) at the k-th operation on the log file inside a write to a
@@ -789,7 +791,7 @@ func (a *aofRun) runSeq() {
 					a.s.Probe("ioerr-acknowledged")
 				}
 			}
-			if a.disk.Fired && (a.disk.Mode == "kill" || a.disk.Mode == "power") {
+			if a.disk.Fired && (a.disk.Mode == "kill" || a.disk.Mode == "power" || a.disk.Mode == "oskill") {
 				// crashed inside the command: the command was not acknowledged
 				a.names = append(a.names, "crash:"+mode+"@"+a.disk.FiredAt)
 				a.s.KillInstance(a.inst.ID)
